@@ -36,6 +36,21 @@ TABLE = {
 LISTS = ['Instrument.events', 'Scheduler.events', 'Buffer.events']
 
 
+def obs_loop_clause(repo, res, rule, consequence):
+    """every observation is examined in every step: the per-observation loop of Telescope.run has
+    no early exit (shared with C08: an observation behind the exit is not started / finished on time)"""
+    from .common import iteration_segments
+    tel = repo.func('Telescope.run')
+    obs_loops = [n for n in walk_no_nested(tel.node) if isinstance(n, ast.For)]
+    for lp in obs_loops:
+        early = [how for seg, how in iteration_segments(tel, lp) if how not in ('back', 'raise')]
+        (res.ok if not early else res.bad)(
+            rule, tel, lp, 'the per-observation loop of Telescope.run examines every observation each step',
+            'ok' if not early else 'the per-observation loop can be left early (%s): an observation listed later is not '
+            'examined in that step, so %s' % (early[0], consequence))
+    return len(obs_loops)
+
+
 def check(repo, res, tier):
     canon = Canon(repo)
     logic = Logic(canon)
@@ -131,15 +146,7 @@ def check(repo, res, tier):
         else:
             res.ok('C13.E1', f, call, what)
     # every observation is examined every step: the per-observation loop has no early exit
-    tel = repo.func('Telescope.run')
-    obs_loops = [n for n in walk_no_nested(tel.node) if isinstance(n, ast.For)]
-    from .common import iteration_segments
-    for lp in obs_loops:
-        early = [how for seg, how in iteration_segments(tel, lp) if how not in ('back', 'raise')]
-        (res.ok if not early else res.bad)(
-            'C13.E1', tel, lp, 'the per-observation loop of Telescope.run examines every observation each step',
-            'ok' if not early else 'the per-observation loop can be left early (%s): an observation listed later is not '
-            'examined in that step, so its "finished" entry is stamped later than start + duration' % early[0])
+    obs_loop_clause(repo, res, 'C13.E1', 'its "finished" entry is stamped later than start + duration')
     # "allocation stopped" is emitted once: the buffer refuses to finish an observation only if it is not resident
     mk = repo.func('Buffer.mark_observation_finished')
     mfr = Frame(mk)
